@@ -630,4 +630,93 @@ theorem head_le_of_increasing (a : Int) (l : List Int) (h : Increasing (a :: l))
     · have := ih b h.2 n hn; have := h.1; omega
 
 
+
+/-! ## arbitrary addition (float running sums), multinomial contract -/
+
+
+theorem r2dLoop_eq_W (ps : List Rat) (u cum : Rat) (idx : Nat) :
+    r2dLoop ps u cum idx = r2dLoopW (· + ·) ps u cum idx := by
+  induction ps generalizing cum idx with
+  | nil => rfl
+  | cons p t ih => simp only [r2dLoop, r2dLoopW, ih]
+
+/-- running sums under an arbitrary addition -/
+def scanAdd (add : Rat → Rat → Rat) : Rat → List Rat → List Rat
+  | _, [] => []
+  | c, p :: ps => add c p :: scanAdd add (add c p) ps
+
+theorem r2dLoopW_eq_cums (add : Rat → Rat → Rat) (ps : List Rat) (u cum : Rat) (idx : Nat) :
+    r2dLoopW add ps u cum idx = r2dCums (scanAdd add cum ps) u idx := by
+  induction ps generalizing cum idx with
+  | nil => rfl
+  | cons p t ih => simp only [r2dLoopW, scanAdd, r2dCums, ih]
+
+/-- for ANY addition with `add c 0 = c` (true of IEEE doubles): a hit never lands on an entry that is exactly 0,
+provided the loop was entered with `cum ≤ u` -/
+theorem r2dLoopW_hit_ne_zero (add : Rat → Rat → Rat) (hadd : ∀ c, add c 0 = c) (ps : List Rat) (u cum : Rat)
+    (idx i : Nat) (hcu : ¬ u < cum) (h : r2dLoopW add ps u cum idx = some i) :
+    ∃ k, i = idx + k ∧ ∃ hk : k < ps.length, ps[k] ≠ 0 := by
+  induction ps generalizing cum idx with
+  | nil => simp [r2dLoopW] at h
+  | cons p t ih =>
+    simp only [r2dLoopW] at h
+    split at h
+    · rename_i hhit
+      injection h with h; subst h
+      refine ⟨0, rfl, by simp, ?_⟩
+      intro hp
+      simp only [List.getElem_cons_zero] at hp
+      rw [hp, hadd] at hhit
+      exact hcu ((hit_iff _ _).1 hhit)
+    · rename_i hno
+      obtain ⟨k, hk, hlt, hne⟩ := ih (add cum p) (idx + 1) (fun hh => hno ((hit_iff _ _).2 hh)) h
+      exact ⟨k + 1, by omega, by simpa using hlt, by simpa using hne⟩
+
+/-- reviewer's strengthening of `r2d_pos`: no sign hypothesis on the entries, no `u < Σ probs` -/
+theorem r2dLoop_hit_pos (probs : List Rat) (u : Rat) (hu : 0 ≤ u) (i : Nat)
+    (h : r2dLoop probs u 0 0 = some i) : ∃ hi : i < probs.length, 0 < probs[i] := by
+  obtain ⟨k, hk, hlen, hlt, hall⟩ := (r2dLoop_some_iff probs u 0 0 i).1 h
+  simp only [Nat.zero_add] at hk; subst hk
+  refine ⟨hlen, ?_⟩
+  have hs := List.sum_take_succ probs i hlen
+  cases i with
+  | zero => simp at hs hlt; linarith
+  | succ j =>
+    have := hall j (by omega)
+    simp only [Rat.zero_add] at this hlt
+    linarith
+
+
+
+/-- contract of `scipy.stats.multinomial.rvs(n, p, random_state=g)` for `n > 0`: one count per outcome, non-negative,
+summing to `n`, zero on outcomes of probability 0 -/
+structure MultiOK {G : Type} (P : PRNG G) : Prop where
+  len : ∀ g n p, 0 < n → (P.multi g n p).1.length = p.length
+  nonneg : ∀ g n p, 0 < n → ∀ c ∈ (P.multi g n p).1, 0 ≤ c
+  total : ∀ g n p, 0 < n → (P.multi g n p).1.sum = n
+  support : ∀ g n (p : List Rat) (i : Nat), 0 < n → p[i]? = some 0 → (P.multi g n p).1[i]? = some 0
+
+/-- a valid empirical distribution for `probs`: one entry per outcome, non-negative, summing to one, zero where the
+probability is zero -/
+def ValidEmpi (probs : List Rat) (e : List Rat) : Prop :=
+  e.length = probs.length ∧ (∀ x ∈ e, 0 ≤ x) ∧ e.sum = 1 ∧ ∀ i : Nat, probs[i]? = some 0 → e[i]? = some 0
+
+theorem sum_map_div_int (l : List Int) (n : Int) :
+    (l.map fun (c : Int) => (c : Rat) / (n : Rat)).sum = ((l.sum : Int) : Rat) / (n : Rat) := by
+  induction l with
+  | nil => simp
+  | cons c t ih => simp only [List.map_cons, List.sum_cons, ih]; push_cast; rw [add_div]
+
+theorem validEmpi_of_counts {G : Type} (P : PRNG G) (hP : MultiOK P) (g : G) (n : Int) (hn : 0 < n) (probs : List Rat) :
+    ValidEmpi probs ((P.multi g n probs).1.map fun (c : Int) => (c : Rat) / (n : Rat)) := by
+  have hnq : (0 : Rat) < (n : Rat) := by exact_mod_cast hn
+  refine ⟨by simp [hP.len g n probs hn], ?_, ?_, ?_⟩
+  · intro x hx
+    obtain ⟨c, hc, rfl⟩ := List.mem_map.1 hx
+    exact div_nonneg (by exact_mod_cast hP.nonneg g n probs hn c hc) (le_of_lt hnq)
+  · rw [sum_map_div_int, hP.total g n probs hn]; exact div_self (ne_of_gt hnq)
+  · intro i hi
+    simp [List.getElem?_map, hP.support g n probs i hn hi]
+
+
 end QM.C14
